@@ -1,4 +1,5 @@
 import CV.Model.TableModel
+import CV.Model.RangeTable
 import CV.Proofs.RangeMsg
 /-!
 # The table model handed to the real coders by the harness is well-formed
@@ -15,11 +16,6 @@ namespace CV
 def StrictCdf (P : Nat) (cdf : List Nat) : Prop :=
   3 ≤ cdf.length ∧ cdf.getD 0 0 = 0 ∧ cdf.getD (cdf.length - 1) 0 = 2^P ∧
   ∀ i, i + 1 < cdf.length → cdf.getD i 0 < cdf.getD (i + 1) 0
-
-def strictCdfB (P : Nat) (cdf : List Nat) : Bool :=
-  decide (3 ≤ cdf.length) && decide (cdf.getD 0 0 = 0) &&
-  decide (cdf.getD (cdf.length - 1) 0 = 2^P) &&
-  (List.range (cdf.length - 1)).all (fun i => decide (cdf.getD i 0 < cdf.getD (i + 1) 0))
 
 theorem strictCdf_of_check {P : Nat} {cdf : List Nat} (h : strictCdfB P cdf = true) :
     StrictCdf P cdf := by
